@@ -100,7 +100,7 @@ def apply_op(mt, case, op):
 # ================================================================================================== C02
 def case_C02(seed):
     rnd = _rnd(seed, 'C02')
-    case = U.gen_case(rnd)
+    case = U.gen_case(rnd, grid=(seed % 7 == 3))
     U.quiet()
     mp = U.make_map(case['graph'])
     mt = U.make_matcher(mp, case['cfg'], case.get('warmup'))
@@ -419,7 +419,7 @@ def expanded_set_monitor(mt, log):
 
 def case_C07(seed):
     rnd = _rnd(seed, 'C07')
-    case = U.gen_case(rnd, width=rnd.choice([1, 1, 2, 3]), n=rnd.choice([4, 5, 5]))
+    case = U.gen_case(rnd, width=rnd.choice([1, 1, 2, 3]), n=rnd.choice([4, 5, 5]), grid=(seed % 7 == 3))
     U.quiet()
     n = len(case['trace'])
     viol = []
@@ -516,7 +516,7 @@ def case_C08(seed):
 # ================================================================================================== C09
 def case_C09(seed):
     rnd = _rnd(seed, 'C09')
-    case = U.gen_case(rnd)
+    case = U.gen_case(rnd, grid=(seed % 6 == 4))
     U.quiet()
     dbg = rnd.random() < 0.4        # 'any sequence of operations' includes running with the documented DEBUG level
     lg = logging.getLogger("be.kuleuven.cs.dtai.mapmatching")
@@ -804,7 +804,7 @@ def case_C17(seed):
 # ================================================================================================== C19
 def case_C19(seed):
     rnd = _rnd(seed, 'C19')
-    case = U.gen_case(rnd)
+    case = U.gen_case(rnd, grid=(seed % 7 == 3))
     lg = logging.getLogger("be.kuleuven.cs.dtai.mapmatching")
     out = []
     ops = gen_history(rnd, case, allow_cwd=False)
